@@ -125,7 +125,7 @@ pub const CORPUS: &[&str] = &[
     "SELECT CASE WHEN age < 20 THEN 'a' WHEN age < 40 THEN 'b' ELSE 'c' END AS band, avg(score) AS s FROM users GROUP BY CASE WHEN age < 20 THEN 'a' WHEN age < 40 THEN 'b' ELSE 'c' END",
 ];
 
-pub fn generate(seed: u64, run: u64) -> Workload {
+pub fn generate(seed: u64, run: u64, depth: u32) -> Workload {
     let g = gen::generate(seed, run, "C16");
     let sc = g.scenario;
     let mut r = Rng::stream(seed, run, "workload");
@@ -141,11 +141,11 @@ pub fn generate(seed: u64, run: u64) -> Workload {
     if r.chance(0.5) {
         queries.push(gen::generate(seed, run.wrapping_mul(7919).wrapping_add(13), "C16").scenario.sql);
     }
-    let k = 1 + r.weighted(&[1, 3, 4, 2]);
+    let k = if depth > 0 { 1 + r.weighted(&[1, 2, 4, 3, 2]) } else { 1 + r.weighted(&[1, 3, 4, 2]) };
     let nq = queries.len();
     let mut threads = vec![];
     for _ in 0..k {
-        let n_ops = 3 + r.usize(10);
+        let n_ops = 3 + r.usize(if depth > 0 { 16 } else { 10 });
         let mut ops = vec![];
         for _ in 0..n_ops {
             ops.push(gen_op(&mut r, nq, true));
